@@ -173,7 +173,8 @@ def main(argv):
     tier = args.tier if args.tier in ('quick', 'thorough') else 'quick'
     seed = int(os.environ.get('VERIF_SEED', '0') or 0)
     t0 = time.time()
-    evdir = os.path.join(VERIF, 'evidence')
+    # LRS_EVIDENCE_DIR: scratch runs of the tooling (seed regression on a copy of the repository) keep their evidence apart
+    evdir = os.environ.get('LRS_EVIDENCE_DIR') or os.path.join(VERIF, 'evidence')
     os.makedirs(os.path.join(evdir, 'replay'), exist_ok=True)
     evfile = os.path.join(evdir, pid + '.json')
     if not args.replay:
